@@ -289,47 +289,62 @@ pub fn c13enc() -> bool {
         vec![(1, 5), (2, 10), (3, 10), (4, 7)],
         vec![(1, 10), (2, 9), (3, 8)],
     ];
+    // plus two large sets (more than 127 heads need a two-byte length prefix), with one- and two-byte timestamps
+    let mut all_sets: Vec<(String, AuthorHeads, usize)> = vec![];
     for set in &sets {
         let mut heads = AuthorHeads::default();
         for (b, t) in set {
             heads.insert(a(*b), *t);
         }
+        all_sets.push((format!("{set:?}"), heads, 2 + 34 * set.len()));
+    }
+    for (n, base) in [(130usize, 10u64), (200, 1000)] {
+        let mut heads = AuthorHeads::default();
+        for i in 0..n {
+            let mut id = [9u8; 32];
+            id[0] = i as u8;
+            id[1] = (i >> 8) as u8;
+            heads.insert(AuthorId::from(&id), base + i as u64);
+        }
+        all_sets.push((format!("[{n} heads from timestamp {base}]"), heads, 3 + 35 * n));
+    }
+    for (set, heads, max_limit) in &all_sets {
         match std::panic::catch_unwind(|| heads.encode(None)) {
             Ok(Ok(bytes)) => match AuthorHeads::decode(&bytes) {
-                Ok(back) if back == heads => {}
+                Ok(back) if back == *heads => {}
                 Ok(back) => {
-                    eprintln!("c13enc{set:?}: encode(None) + decode keeps {} of {} authors", back.len(), heads.len());
+                    eprintln!("c13enc{set}: encode(None) + decode keeps {} of {} authors", back.len(), heads.len());
                     bad = true;
                 }
                 Err(e) => {
-                    eprintln!("c13enc{set:?}: decode failed: {e}");
+                    eprintln!("c13enc{set}: decode failed: {e}");
                     bad = true;
                 }
             },
             other => {
-                eprintln!("c13enc{set:?}: encode(None) failed: {:?}", other.map(|r| r.map(|b| b.len())).map_err(|_| "panic"));
+                eprintln!("c13enc{set}: encode(None) failed: {:?}", other.map(|r| r.map(|b| b.len())).map_err(|_| "panic"));
                 bad = true;
             }
         }
-        for limit in 0..=(2 + 34 * set.len()) {
+        for limit in 0..=*max_limit {
             let h2 = heads.clone();
             match std::panic::catch_unwind(move || h2.encode(Some(limit))) {
                 Err(_) => {
-                    eprintln!("c13enc{set:?}: encode(Some({limit})) panicked");
+                    eprintln!("c13enc{set}: encode(Some({limit})) panicked");
                     bad = true;
                     break;
                 }
                 Ok(Err(e)) => {
                     // refusing a limit that not even the empty list (1 byte) fits into is fine
                     if limit >= 1 {
-                        eprintln!("c13enc{set:?}: encode(Some({limit})) failed although the empty list fits: {e}");
+                        eprintln!("c13enc{set}: encode(Some({limit})) failed although the empty list fits: {e}");
                         bad = true;
                         break;
                     }
                 }
                 Ok(Ok(bytes)) => {
                     if bytes.len() > limit {
-                        eprintln!("c13enc{set:?}: encode(Some({limit})) returned {} bytes", bytes.len());
+                        eprintln!("c13enc{set}: encode(Some({limit})) returned {} bytes", bytes.len());
                         bad = true;
                         break;
                     }
@@ -339,16 +354,16 @@ pub fn c13enc() -> bool {
                     let dropped_max = heads.iter().filter(|(au, _)| back.get(au).is_none()).map(|(_, t)| *t).max();
                     if let (Some(k), Some(d)) = (kept_min, dropped_max) {
                         if d > k {
-                            eprintln!("c13enc{set:?}: limit {limit}: dropped a head newer than a kept one");
+                            eprintln!("c13enc{set}: limit {limit}: dropped a head newer than a kept one");
                             bad = true;
                         }
                     }
                     if back.iter().any(|(au, t)| heads.get(au) != Some(*t)) {
-                        eprintln!("c13enc{set:?}: limit {limit}: decoded a head that was not in the set");
+                        eprintln!("c13enc{set}: limit {limit}: decoded a head that was not in the set");
                         bad = true;
                     }
-                    if back.len() < heads.len() && limit >= bytes.len() + 34 {
-                        eprintln!("c13enc{set:?}: limit {limit}: kept {} heads in {} bytes although one more fits", back.len(), bytes.len());
+                    if back.len() < heads.len() && limit >= bytes.len() + 35 {
+                        eprintln!("c13enc{set}: limit {limit}: kept {} heads in {} bytes although one more fits", back.len(), bytes.len());
                         bad = true;
                     }
                 }
@@ -366,15 +381,16 @@ pub fn c13news() -> bool {
     let mk = |code: u32| {
         let mut h = AuthorHeads::default();
         for i in 0..3u32 {
-            let t = (code / 3u32.pow(i)) % 3;
+            // digit 0 = the author is absent; 1, 2, 3 = timestamps 0, 1, 2 (0 is a valid timestamp)
+            let t = (code / 4u32.pow(i)) % 4;
             if t > 0 {
-                h.insert(AuthorId::from(&[i as u8 + 1; 32]), t as u64);
+                h.insert(AuthorId::from(&[i as u8 + 1; 32]), t as u64 - 1);
             }
         }
         h
     };
-    for ca in 0..27u32 {
-        for cb in 0..27u32 {
+    for ca in 0..64u32 {
+        for cb in 0..64u32 {
             let (a, b) = (mk(ca), mk(cb));
             let want = a.iter().filter(|(au, t)| b.get(au).map(|tb| **t > tb).unwrap_or(true)).count() as u64;
             let got = a.has_news_for(&b).map(|n| n.get()).unwrap_or(0);
@@ -517,9 +533,161 @@ pub fn c05() -> bool {
 }
 
 
+/// C16 (content hashes): the hashes reported for garbage-collection protection are exactly the hashes of the entries
+/// held, in any document — with copies of one value under neighbouring keys, neighbouring deletion markers, two authors
+/// and two documents.
+pub fn c16hashes() -> bool {
+    let mut store = Store::memory();
+    let authors = [Author::from_bytes(&[21u8; 32]), Author::from_bytes(&[22u8; 32])];
+    let mut want: Vec<iroh_blobs_hash::Hash> = vec![];
+    for d in 0..2u8 {
+        let ns = NamespaceSecret::from_bytes(&[30 + d; 32]);
+        let mut replica = store.new_replica(ns).unwrap();
+        let (same, l) = hash(b"one value stored under several keys");
+        for (i, key) in [&b"a"[..], b"b", b"c", b"k/1", b"k/2", b"z"].iter().enumerate() {
+            let (h, len) = if i < 3 { (same, l) } else { hash(&[key, &[d][..]].concat()) };
+            block_on(replica.insert(key, &authors[i % 2], h, len)).unwrap();
+            block_on(replica.insert(key, &authors[0], h, len)).unwrap();
+        }
+        // neighbouring deletion markers (nothing below them, so they stay as entries of their own)
+        block_on(replica.delete_prefix(b"x1", &authors[1])).unwrap();
+        block_on(replica.delete_prefix(b"x2", &authors[1])).unwrap();
+        block_on(replica.delete_prefix(b"x3", &authors[1])).unwrap();
+        let id = replica.id();
+        drop(replica);
+        store.close_replica(id);
+        for e in store.get_many(id, Query::all().include_empty()).unwrap() {
+            want.push(e.unwrap().content_hash());
+        }
+    }
+    let mut got: Vec<iroh_blobs_hash::Hash> = store.content_hashes().unwrap().collect::<Result<Vec<_>, _>>().unwrap();
+    got.sort();
+    want.sort();
+    let bad = got != want;
+    eprintln!("c16hashes: {} hashes reported, {} entries held; mismatch: {bad}", got.len(), want.len());
+    bad
+}
+
+/// C16 (open guard): a document that was opened — through `open_replica` or through `load_replica_info`, which is what the
+/// store actor uses — cannot be removed until it is closed; afterwards it can.
+pub fn c16open() -> bool {
+    let mut bad = false;
+    for via_info in [false, true] {
+        let mut store = Store::memory();
+        let ns = NamespaceSecret::from_bytes(&[41u8; 32]);
+        let author = Author::from_bytes(&[42u8; 32]);
+        let id = ns.id();
+        {
+            let mut replica = store.new_replica(ns.clone()).unwrap();
+            let (h, l) = hash(b"v");
+            block_on(replica.insert(b"k", &author, h, l)).unwrap();
+        }
+        store.close_replica(id);
+        if via_info {
+            let _info = store.load_replica_info(&id).unwrap();
+        } else {
+            let _replica = store.open_replica(&id).unwrap();
+        }
+        let refused = store.remove_replica(&id).is_err();
+        let still_there = store.get_many(id, Query::all()).map(|it| it.count()).unwrap_or(0);
+        if !refused || still_there != 1 {
+            eprintln!("c16open: an open document (opened via {}) was removed: refused={refused}, entries left={still_there}", if via_info { "load_replica_info" } else { "open_replica" });
+            bad = true;
+        }
+        store.close_replica(id);
+        if store.remove_replica(&id).is_err() {
+            eprintln!("c16open: a closed document could not be removed");
+            bad = true;
+        }
+    }
+    bad
+}
+
+/// C14 (gating through the store actor): with sync switched off reconciliation and remote inserts are refused while local
+/// use works; nothing works on a document that is not open; a document with a handle left cannot be dropped.
+pub fn c14gate() -> bool {
+    use iroh_docs::actor::{OpenOpts, SyncHandle};
+    use iroh_docs::sync::{ContentStatus, SyncOutcome};
+    use iroh_docs::Capability;
+    let alice = SyncHandle::spawn(Store::memory(), None, "c14gate-a".into());
+    let bob = SyncHandle::spawn(Store::memory(), None, "c14gate-b".into());
+    let author = Author::from_bytes(&[51u8; 32]);
+    let namespace = NamespaceSecret::from_bytes(&[52u8; 32]);
+    let id = namespace.id();
+    let mut bad = vec![];
+    block_on(async {
+        // alice: a syncing document with one entry, to get a genuine initial message and a genuine signed entry
+        let a = alice.import_author(author.clone()).await.unwrap();
+        alice.import_namespace(Capability::Write(namespace.clone())).await.unwrap();
+        alice.open(id, OpenOpts::default().sync()).await.unwrap();
+        let (h, l) = hash(b"v1");
+        alice.insert_local(id, a, "k1".into(), h, l).await.unwrap();
+        let init = alice.sync_initial_message(id).await.unwrap();
+        let entry = alice.get_exact(id, a, "k1".into(), false).await.unwrap().unwrap();
+        // bob: the document exists but is NOT open
+        let b = bob.import_author(author.clone()).await.unwrap();
+        bob.import_namespace(Capability::Write(namespace.clone())).await.unwrap();
+        if bob.get_exact(id, b, "k1".into(), false).await.is_ok() { bad.push("get_exact on a document that is not open"); }
+        if bob.insert_local(id, b, "k9".into(), h, l).await.is_ok() { bad.push("insert_local on a document that is not open"); }
+        if bob.sync_initial_message(id).await.is_ok() { bad.push("sync_initial_message on a document that is not open"); }
+        // bob: open, sync OFF
+        bob.open(id, OpenOpts::default()).await.unwrap();
+        if bob.insert_local(id, b, "k2".into(), h, l).await.is_err() { bad.push("insert_local refused on an open document"); }
+        if bob.sync_initial_message(id).await.is_ok() { bad.push("sync_initial_message with sync disabled"); }
+        if bob.sync_process_message(id, init.clone(), [1u8; 32], SyncOutcome::default()).await.is_ok() { bad.push("sync_process_message with sync disabled"); }
+        if bob.insert_remote(id, entry.clone(), [1u8; 32], ContentStatus::Complete).await.is_ok() { bad.push("insert_remote with sync disabled"); }
+        if bob.get_exact(id, a, "k1".into(), false).await.unwrap().is_some() && !bad.is_empty() { /* reported above */ }
+        // a second open with sync turns it on; it stays on after a plain open; reconciliation now works
+        bob.open(id, OpenOpts::default().sync()).await.unwrap();
+        bob.open(id, OpenOpts::default()).await.unwrap();
+        if bob.sync_process_message(id, init.clone(), [1u8; 32], SyncOutcome::default()).await.is_err() { bad.push("sync_process_message refused although sync is enabled"); }
+        // three handles; one close leaves two: a drop request (which gives up the requester's own handle) must be refused
+        // while another handle is still held, and the entries must stay
+        if bob.close(id).await.unwrap() { bad.push("close reported closed with two handles left"); }
+        if bob.drop_replica(id).await.is_ok() { bad.push("drop_replica succeeded while another handle is held"); }
+        if bob.get_exact(id, b, "k2".into(), false).await.map(|e| e.is_none()).unwrap_or(true) { bad.push("entries are gone after a refused drop"); }
+        let _ = alice.shutdown().await;
+        let _ = bob.shutdown().await;
+    });
+    for b in &bad {
+        eprintln!("c14gate: {b}");
+    }
+    !bad.is_empty()
+}
+
+/// C06 / C14 (a failing request must not lose earlier acknowledged writes): an insert, then a store request whose closure
+/// fails inside the same open transaction (policy / peer for an unknown document), then read back and flush.
+pub fn c06err() -> bool {
+    use iroh_docs::store::DownloadPolicy;
+    let mut store = Store::memory();
+    let ns = NamespaceSecret::from_bytes(&[61u8; 32]);
+    let author = Author::from_bytes(&[62u8; 32]);
+    let unknown = NamespaceSecret::from_bytes(&[63u8; 32]).id();
+    let id = ns.id();
+    {
+        let mut replica = store.new_replica(ns).unwrap();
+        let (h, l) = hash(b"acknowledged");
+        block_on(replica.insert(b"k", &author, h, l)).unwrap();
+    }
+    store.close_replica(id);
+    let e1 = store.set_download_policy(&unknown, DownloadPolicy::default()).is_err();
+    let alive1 = store.get_exact(id, author.id(), b"k", false).unwrap().is_some();
+    let e2 = store.register_useful_peer(unknown, [9u8; 32]).is_err();
+    let alive2 = store.get_exact(id, author.id(), b"k", false).unwrap().is_some();
+    store.flush().unwrap();
+    let alive3 = store.get_exact(id, author.id(), b"k", false).unwrap().is_some();
+    let bad = !(e1 && e2 && alive1 && alive2 && alive3);
+    eprintln!("c06err: requests for an unknown document refused: {e1} {e2}; the earlier insert is still there: {alive1} {alive2} {alive3}");
+    bad
+}
+
 pub fn run(id: &str) -> Option<bool> {
     Some(match id {
         "d2" => d2(),
+        "c16hashes" => c16hashes(),
+        "c06err" => c06err(),
+        "c14gate" => c14gate(),
+        "c16open" => c16open(),
         "c07a" => c07a(),
         "d7" => d7(),
         "d4" => d4(),
